@@ -428,6 +428,12 @@ func ruleHNSWNeighbourTable(r *Run, rule string) {
 				return "OVER", neg
 			case after && cmp.Op == token.LEQ && isLen(cmp.L) && isEf(cmp.R): // len <= ef
 				return "OVER", !neg
+			case cmp.Op == token.LSS && cmp.L == "c(0)" && isLen(cmp.R): // 0 < len
+				return "NONEMPTY", neg
+			case cmp.Op == token.LEQ && isLen(cmp.L) && cmp.R == "c(0)": // len <= 0
+				return "NONEMPTY", !neg
+			case cmp.Op == token.EQL && (isLen(cmp.L) && cmp.R == "c(0)" || isLen(cmp.R) && cmp.L == "c(0)"): // len == 0
+				return "NONEMPTY", !neg
 			case cmp.Op == token.LSS && cmp.R == worst && strings.Contains(cmp.L, "Distance.Calculate("): // d < worst
 				return "CLOSER", neg
 			case cmp.Op == token.LEQ && cmp.L == worst && strings.Contains(cmp.R, "Distance.Calculate("): // worst <= d
@@ -483,7 +489,10 @@ func ruleHNSWNeighbourTable(r *Run, rule string) {
 		}
 		return strings.Join(parts, "+")
 	}
-	bad, states := tableCheck([]string{"VISITED", "FULL", "CLOSER", "DELETED", "OVER"}, rows, outcome, func(a map[string]bool) string {
+	bad, states := tableCheck([]string{"VISITED", "FULL", "CLOSER", "DELETED", "OVER", "NONEMPTY"}, rows, outcome, func(a map[string]bool) string {
+		if !a["NONEMPTY"] && (a["FULL"] || a["CLOSER"]) {
+			return "-" // an empty result heap is not full (ef ≥ 1) and has no worst element to beat
+		}
 		if a["VISITED"] {
 			return "nothing"
 		}
